@@ -4,6 +4,7 @@ import numpy as np
 
 from vmon import biv, interpose, stats
 from vmon.core import exc_detail, exc_mech, rng_for
+from vmon.monitors.c10 import frank_tol
 from vmon.refs import arch, rank, samplers
 
 PROPERTY = 'C09'
@@ -82,7 +83,7 @@ def run_case(spec, ctx):
     tau_model = float(ref.tau())
     where['theta'] = theta
     # "the model's tau": the attribute and the parameter must describe the same copula
-    ctx.check(model.tau is not None and abs(model.tau - tau_model) <= (5e-3 if fam == 'frank' else 1e-9),
+    ctx.check(model.tau is not None and abs(model.tau - tau_model) <= (frank_tol(model.tau) if fam == 'frank' else 1e-9),
               'sample.model-tau-is-tau-of-theta', 'C09:model-tau-and-theta-disagree',
               lambda: dict(where, model_tau=model.tau, tau_of_theta=tau_model))
 
